@@ -94,6 +94,10 @@ def st_reassembler(ctx):
         r4[k]["cbs"][evs[0]], r4[k]["cbs"][evs[1]] = r4[k]["cbs"][evs[1]], r4[k]["cbs"][evs[0]]
         expect_flag(ctx, "reassembler", "ReassemblerTrace", r4, "C02", "the order of two deliveries")
     expect_model_rejected(ctx, "reassembler", "MC_Reassembler", fam_rs.mc_cfg(Arith="legacy", MaxOps=4), "legacy loss arithmetic")
+    for cinit, what in (("CInitSweep", "expired events swept from behind the head"), ("CInitNoAdv", "timed-out events delivered without advance()")):
+        if not core.apalache_check(ctx, "reassembler", "ReassemblerInd", ["--cinit=" + cinit, "--init=IndInit", "--inv=IndInv", "--length=1"], expect_error=True):
+            raise Fail("reassembler: Apalache found the inductive step preserved by the seeded variant (%s)" % what)
+        print("  ok  %-12s seeded-bug model %-43s -> inductive step refuted by Apalache" % ("reassembler", what))
 
 
 def st_conc(ctx):
